@@ -868,3 +868,15 @@ B('MN-split-first', ['C17'], 'store_zip.py', '_StoreZip.labels',
 N('MN-removesuffix', ['C17'], 'store_zip.py', '_StoreZip.labels',
   'if strip_ext and self._EXT_CONTAINED and name.endswith(self._EXT_CONTAINED):\n                    # remove only the suffix added on write\n                    name = name[:-len(self._EXT_CONTAINED)]',
   "if strip_ext:\n                    name = name.removesuffix(self._EXT_CONTAINED)")
+
+# ---------------------------------------------------------------------------------- Quilt retained labels (C19)
+B('QL-single-frame-shortcut', ['C19'], 'quilt.py', 'Quilt._extract',
+  '            if self._retain_labels and self._axis == 0:\n                frames = (extractor(f.relabel_level_add(index=k))',
+  '            if len(self._bus) == 1:\n                return extractor(self._bus.iloc[0])\n            if self._retain_labels and self._axis == 0:\n                frames = (extractor(f.relabel_level_add(index=k))',
+  'I.quilt-retain-labels-consulted', '_extract')
+B('QL-axis-labels-axis1-unconditional', ['C19'], 'quilt.py', 'Quilt._update_axis_labels',
+  '            if not self._retain_labels:\n                self._columns = self._axis_map.index.level_drop(1) #type: ignore\n            else:\n                self._columns = self._axis_map.index\n',
+  '            self._columns = self._axis_map.index.level_drop(1)\n', 'I.quilt-retain-labels-consulted', '_update_axis_labels')
+N('QL-single-frame-shortcut-after-test', ['C19'], 'quilt.py', 'Quilt._extract',
+  '            else:\n                frames = (extractor(f) for _, f in self._bus.items())\n',
+  '            elif len(self._bus) == 1:\n                return extractor(self._bus.iloc[0])\n            else:\n                frames = (extractor(f) for _, f in self._bus.items())\n')
